@@ -52,16 +52,16 @@ func newAggregatedLabels(set LabelSet, by, without map[string]struct{}) *aggrega
 
 // By returns new set of labels containing only given list of labels.
 func (a *aggregatedLabels) By(labels ...logql.Label) logqlmetric.AggregatedLabels {
-	if len(labels) == 0 {
-		return a
-	}
-
-	sub := &aggregatedLabels{
-		entries: a.entries,
-		without: a.without,
-		by:      buildSet(maps.Clone(a.by), labels...),
-	}
-	return sub
+	// Keep only labels that are still visible and listed: an empty list gives an empty set,
+	// and labels removed by a previous aggregation cannot reappear.
+	keep := buildSet(nil, labels...)
+	entries := make([]labelEntry, 0, len(labels))
+	a.forEach(func(k, v string) {
+		if _, ok := keep[k]; ok {
+			entries = append(entries, labelEntry{name: k, value: v})
+		}
+	})
+	return &aggregatedLabels{entries: entries}
 }
 
 // Without returns new set of labels without given list of labels.
